@@ -10,14 +10,13 @@ CONSTANTS
   Protos = {TRUE, FALSE}
   Faults <- DialFaults
   Spurious = FALSE
-  Durs <- Durs01
+  Durs <- Durs1
   MaxT = 2
   RespFaults = FALSE
   PreResp = FALSE
   Probe = TRUE
   AsBuiltT <- NoT
-  GenDepth = 0
-SPECIFICATION ProbeSpecH
+SPECIFICATION ProbeSpec
 VIEW TView
 PROPERTY ProbeCompletes
 CHECK_DEADLOCK FALSE
